@@ -127,7 +127,7 @@ def plan(pid, tier, seed):
                 for i in range(ns)]
         # the array accessors (`query_many_mut`, `get_many_mut` of the three view kinds) hand out several unique
         # references at once; their refusal of a repeated handle is part of this property
-        jobs += world_jobs(["query"], tier, seed + 5, 120, 20000)
+        jobs += world_jobs(["query"], tier, seed + 5, 400, 20000)
         return {"jobs": jobs, "nontrivial_min_lines": 6,
                 "rule": "one case = one guard script (8-45 actions: create query/view/prepared/single-entity/Ref/RefMut/column guards, "
                         "iterate, get, with/without, clone, drop in any order) over a seeded world with empty and non-empty archetypes; "
